@@ -36,4 +36,5 @@ CONF = dict(
                 '(NTS, DRKey) is off in these runs (C05/C10/C13). No axioms.'),
     explanation='oracle clauses: the four stamps handed to the filter lie in the bracket of one scripted exchange (t1,t2 = its server stamps up to 1 ns, t0 between the client clock reading before the send and the peer\'s receipt, t3 between the peer\'s transmit stamp and the end of the attempt); 2|offset - theta| <= rtd + 6 ns with rtd recomputed from the stamps; a reported offset without an accepted exchange is rejected',
     timeout_quick=900, timeout_thorough=3000,
+    min_cases={'c03.fallback': 2, 'c03.hist': 768, 'c03.kstamps': 4, 'c03.multi': 1},
 )
